@@ -43,6 +43,7 @@ type SrvWorld struct {
 	Submitted  map[string][]byte // "actor/op" -> payload
 	closedSrv  bool
 	lockLeakReported bool
+	started    chan struct{}
 	finalTries int
 	lossFree   bool
 }
@@ -52,6 +53,7 @@ type PeerActor struct {
 	Spec     PeerSpec
 	Addr     *net.UDPAddr
 	sock     *UDPSock
+	mu       sync.Mutex
 	Received []RecvRec
 	ln       *TCPListener
 	Conns    []*peerConn
@@ -108,10 +110,12 @@ func (g *SimRelayGen) AllocateConn(c turn.AllocateConnConfig) (net.Conn, error) 
 
 func NewSrvWorld(k *Kernel, p *Plan) *SrvWorld {
 	w := &SrvWorld{K: k, P: p, Clients: map[string]*RawClient{}, Real: map[string]*RealClient{}, PeerProbes: map[string]*peerProbe{}, Peers: map[string]*PeerActor{}, Submitted: map[string][]byte{},
-		inspectReq: make(chan func()), inspectRes: make(chan struct{})}
+		inspectReq: make(chan func()), inspectRes: make(chan struct{}), started: make(chan struct{})}
 	w.Net = NewNet(k)
 	w.Mon = NewMonitor(k, w.Net, p)
-	w.Net.Obs = w.Mon
+	if !k.Free {
+		w.Net.Obs = w.Mon
+	}
 	w.LF = NewLoggerFactory(k, p.Expect != nil || p.Tier == "replay")
 	w.lossFree = true
 	for _, f := range p.NetFaults {
@@ -204,6 +208,19 @@ func addrStr(a net.Addr) string {
 func (w *SrvWorld) eventHandler() turn.EventHandler {
 	if !w.P.Cfg.Events {
 		return turn.EventHandler{}
+	}
+	if w.K.Free {
+		// callbacks that share nothing
+		return turn.EventHandler{
+			OnAuth:              func(src, dst net.Addr, proto, user, realm, method string, verdict bool) {},
+			OnAllocationCreated: func(src, dst net.Addr, proto, user, realm string, relay net.Addr, port int) {},
+			OnAllocationDeleted: func(src, dst net.Addr, proto, user, realm string) {},
+			OnAllocationError:   func(src, dst net.Addr, proto, msg string) {},
+			OnPermissionCreated: func(src, dst net.Addr, proto, user, realm string, relay net.Addr, peer net.IP) {},
+			OnPermissionDeleted: func(src, dst net.Addr, proto, user, realm string, relay net.Addr, peer net.IP) {},
+			OnChannelCreated:    func(src, dst net.Addr, proto, user, realm string, relay, peer net.Addr, n uint16) {},
+			OnChannelDeleted:    func(src, dst net.Addr, proto, user, realm string, relay, peer net.Addr, n uint16) {},
+		}
 	}
 	m := w.Mon
 	k := w.K
@@ -307,6 +324,7 @@ func (w *SrvWorld) Start() {
 			w.srvSock = s
 			sc.PacketConnConfigs = []turn.PacketConnConfig{{PacketConn: s, RelayAddressGenerator: w.Gen, PermissionHandler: ph}}
 		}
+		defer close(w.started)
 		if cfg.Nonce != "" && cfg.Nonce != "server" && w.srvSock != nil {
 			w.Mini = newMiniServer(w, sc, w.srvSock, ph)
 			return
@@ -333,7 +351,7 @@ func (w *SrvWorld) Start() {
 		if err != nil {
 			Fatalf("client socket: %v", err)
 		}
-		s.Handler = func(d *Dgram) { c.onWire(d.Payload) }
+		s.SetHandler(func(d *Dgram) { c.onWire(d.Payload) })
 		c.sock = s
 	}
 	for i := range w.P.Peers {
@@ -344,9 +362,11 @@ func (w *SrvWorld) Start() {
 		if err != nil {
 			Fatalf("peer socket: %v", err)
 		}
-		s.Handler = func(d *Dgram) {
+		s.SetHandler(func(d *Dgram) {
+			p.mu.Lock()
 			p.Received = append(p.Received, RecvRec{T: w.K.Now(), Kind: "dgram", From: ustr(d.From), Data: d.Payload})
-		}
+			p.mu.Unlock()
+		})
 		p.sock = s
 		if w.P.Cfg.Extra["tcp_peers"] == 1 {
 			p.startTCP()
@@ -355,6 +375,8 @@ func (w *SrvWorld) Start() {
 }
 
 func (c *RawClient) ensureConn() {
+	c.mu.Lock()
+	defer c.mu.Unlock()
 	if c.conn != nil || c.W.P.Cfg.Listener != "tcp" {
 		return
 	}
@@ -363,6 +385,8 @@ func (c *RawClient) ensureConn() {
 	c.conn = placeholder
 	w.Net.DialAsync("client", &net.TCPAddr{IP: c.Addr.IP, Port: c.Addr.Port}, &net.TCPAddr{IP: w.SrvAddr.IP, Port: w.SrvAddr.Port},
 		func(conn *TCPConn, err error) {
+			c.mu.Lock()
+			defer c.mu.Unlock()
 			if err != nil {
 				c.conn = nil
 				return
@@ -383,6 +407,11 @@ func (w *SrvWorld) relayOf(clientID string) *net.UDPAddr {
 	c := w.Clients[clientID]
 	if c == nil {
 		return nil
+	}
+	if w.K.Free {
+		c.mu.Lock()
+		defer c.mu.Unlock()
+		return c.Relay
 	}
 	w.Mon.mu.Lock()
 	defer w.Mon.mu.Unlock()
@@ -420,6 +449,9 @@ func (w *SrvWorld) resolveAt(op *Op) int64 {
 			t = now
 		}
 		return t
+	}
+	if w.K.Free && op.At.Ref != "abs" {
+		return now + 1e6 // no reference model in free-running mode
 	}
 	fallback := now + 1e6
 	var dl int64
@@ -612,7 +644,7 @@ func (w *SrvWorld) afterServerClose() {
 	}
 	for _, c := range w.Clients {
 		if c.sock != nil {
-			c.sock.Handler = nil
+			c.sock.SetHandler(nil)
 			cs := c.sock
 			w.lib("close-client", func() { _ = cs.Close() })
 		}
@@ -639,6 +671,7 @@ func (w *SrvWorld) final() {
 		}
 	}
 	w.done = true
+	w.K.Finish()
 }
 
 func (w *SrvWorld) allocCount() int {
@@ -683,9 +716,17 @@ func (w *SrvWorld) Idle(now int64) {
 // Run drives the world to completion and returns the reason the driver stopped.
 func (w *SrvWorld) Run(maxSteps int) string {
 	w.Start()
-	w.K.At(w.K.Now()+1e6, "begin", func() { w.prevIssue = w.K.Now(); w.scheduleNext() })
+	w.K.At(w.K.Now()+1e6, "begin", func() {
+		if w.K.Free {
+			<-w.started // the only ordering between set-up and the first operation in free-running mode
+		}
+		w.prevIssue = w.K.Now()
+		w.scheduleNext()
+	})
 	reason := w.K.Drive(maxSteps, w.Idle, func() bool { return w.done })
-	w.Mon.Final(w.K.Now())
+	if !w.K.Free {
+		w.Mon.Final(w.K.Now())
+	}
 	close(w.inspectReq)
 	return reason
 }
